@@ -922,6 +922,18 @@ class state_machine_base : public FrontEnd
                 continue;
             }
 
+            // Consider newly deferred events only if
+            // the event was not deferred at the same time
+            // (required to prevent infinitely processing the same event,
+            // if it was handled and at the same time action-deferred
+            // in orthogonal regions).
+            // This also has to happen when we stop below at max_events,
+            // the events deferred so far must be eligible in the next call.
+            if (!(*result & process_result::HANDLED_DEFERRED))
+            {
+                event_pool.cur_seq_cnt += 1;
+            }
+
             // Consider anything except "only deferred" to be a processed event.
             if (*result != process_result::HANDLED_DEFERRED)
             {
@@ -935,15 +947,6 @@ class state_machine_base : public FrontEnd
             // Start from the beginning, we might be able to process
             // events that were deferred before.
             it = event_pool.events.begin();
-            // Consider newly deferred events only if
-            // the event was not deferred at the same time
-            // (required to prevent infinitely processing the same event,
-            // if it was handled and at the same time action-deferred
-            // in orthogonal regions).
-            if (!(*result & process_result::HANDLED_DEFERRED))
-            {
-                event_pool.cur_seq_cnt += 1;
-            }
         } while (it != event_pool.events.end());
         return processed_events;
     }
